@@ -12,11 +12,14 @@
 // final contents are compared with the Lean bucket model; the oracle (implementation only)
 // checks that nothing outside the view's root was read, created, changed or deleted and that
 // escaping names were rejected.
+//
+// Section D (archive.go): storagearchive.Untar / Unzip over the whole entry-kind x name x
+// strip-components family (replaces the former section C, which only put hostile names on
+// regular entries).  Section E (unicode.go): spellings that differ only in Unicode normalisation
+// form are different keys in every bucket.
 package main
 
 import (
-	"archive/tar"
-	"bytes"
 	"context"
 	"fmt"
 	"os"
@@ -27,13 +30,11 @@ import (
 
 	"github.com/bufbuild/buf/private/pkg/normalpath"
 	"github.com/bufbuild/buf/private/pkg/storage"
-	"github.com/bufbuild/buf/private/pkg/storage/storagearchive"
 	"github.com/bufbuild/buf/private/pkg/storage/storagemem"
 	"github.com/bufbuild/buf/private/pkg/storage/storageos"
 	"github.com/bufbuild/buf/private/pkg/storage/storageutil"
 	"github.com/bufbuild/verifharness/internal/bk"
 	"github.com/bufbuild/verifharness/internal/hx"
-	"github.com/klauspost/compress/zip"
 )
 
 var ctx = context.Background()
@@ -118,7 +119,9 @@ func enumerate(alphabet []byte, maxLen int, f func(string)) {
 	rec(nil)
 }
 
-var nameAtoms = []string{"a", "b", "c.d", "x y", "é", "..a", "a..", ".hidden", "...", "日本", "a b.proto", "LICENSE"}
+var nameAtoms = []string{"a", "b", "c.d", "x y", "é", "..a", "a..", ".hidden", "...", "日本", "a b.proto", "LICENSE",
+	// normalisation-form twins, zero-width joiner, right-to-left override: all ordinary, DISTINCT name characters
+	"e\u0301", "\u00e9", "\u1100\u1161", "\uac00", "\u212b", "\u00c5", "a\u200db", "\u202ex"}
 var glue = []string{"/", "/", "/", "//", "/./", "/../", "/"}
 
 func randomPath(r *hx.Rand) string {
@@ -201,9 +204,10 @@ func sectionA(run *hx.Run, r *hx.Rand) {
 // Section B
 
 // pool is prefix-free: no element is an ancestor of another (needed for the disk parent).
-var pool = []string{"a/x", "a/y.proto", "a/sub/z", "b", "c/d/e", "a.b", "s t/u", "c/d/f g", "é/n"}
-var dirs = []string{"a", "a/sub", "c", "c/d", "s t", "é", "."}
-var prefixes = []string{"a", "c/d", "c", ".", "a/sub", "s t"}
+var pool = []string{"a/x", "a/y.proto", "a/sub/z", "b", "c/d/e", "a.b", "s t/u", "c/d/f g", "é/n",
+	"nf/e\u0301", "nf/\u00e9", "nf/\u212b.proto", "nf/\u00c5.proto", "\uac00/n", "\u1100\u1161/n"}
+var dirs = []string{"a", "a/sub", "c", "c/d", "s t", "é", ".", "nf", "\uac00", "\u1100\u1161"}
+var prefixes = []string{"a", "c/d", "c", ".", "a/sub", "s t", "nf", "\uac00"}
 
 // MapOnPrefix documents that its prefix is "expected to be normalized and validated" and does not
 // check it: hostile prefixes must still never let an operation leave the PARENT bucket's root.
@@ -638,164 +642,6 @@ func opStrings(ops []bk.Op) []string {
 	return out
 }
 
-// ---------------------------------------------------------------------------------------
-// Section C: archive entry names
-
-var archNames = []string{"a/x", "top/a/x", "top/b", "./top/c", "top//d", "../evil", "top/../../evil", "/abs/e",
-	"top/..", "top/./e/../f", "..", "a/../../outside.txt", "t/é", "t/s p", "top", "x/y/z/w", "top/../sent", "._apple", "top/._res"}
-
-func sectionC(run *hx.Run, r *hx.Rand, tmpRoot string) {
-	n := run.N(600, 8000)
-	for i := 0; i < n; i++ {
-		cr := r.Fork(uint64(i))
-		strip := cr.Intn(3)
-		ne := 1 + cr.Intn(4)
-		type ent struct{ name, content string }
-		var ents []ent
-		for j := 0; j < ne; j++ {
-			name := hx.Pick(cr, archNames)
-			if cr.Chance(1, 4) {
-				name = randomPath(cr)
-			}
-			if name == "" {
-				name = "e"
-			}
-			ents = append(ents, ent{name, "A" + strconv.Itoa(j)})
-		}
-		useZip := cr.Chance(1, 3)
-		onDisk := cr.Chance(1, 3)
-		// build the archive
-		var buf bytes.Buffer
-		okBuild := true
-		if useZip {
-			zw := zip.NewWriter(&buf)
-			for _, e := range ents {
-				w, err := zw.CreateHeader(&zip.FileHeader{Name: e.name, Method: zip.Store})
-				if err != nil {
-					okBuild = false
-					break
-				}
-				w.Write([]byte(e.content))
-			}
-			if zw.Close() != nil {
-				okBuild = false
-			}
-		} else {
-			tw := tar.NewWriter(&buf)
-			for _, e := range ents {
-				if err := tw.WriteHeader(&tar.Header{Typeflag: tar.TypeReg, Name: e.name, Size: int64(len(e.content)), Mode: 0o644}); err != nil {
-					okBuild = false
-					break
-				}
-				tw.Write([]byte(e.content))
-			}
-			if tw.Close() != nil {
-				okBuild = false
-			}
-		}
-		if !okBuild {
-			run.Count("arch:unbuildable")
-			continue
-		}
-		// names that the archive reader itself treats as directories / apple files are excluded
-		// from the model line (library behaviour): entries ending in "/" and base names "._*".
-		var modelEnts []string
-		skipCase := false
-		seenNorm := map[string]bool{}
-		for _, e := range ents {
-			if strings.HasSuffix(e.name, "/") {
-				skipCase = true // directory entry: mode not regular
-			}
-			base := e.name[strings.LastIndex(e.name, "/")+1:]
-			if strings.HasPrefix(base, "._") {
-				continue
-			}
-			modelEnts = append(modelEnts, hx.Enc(e.name)+"="+e.content)
-			// disk: keep path sets prefix-free / conflict-free
-			if nn, err := normalpath.NormalizeAndValidate(e.name); err == nil {
-				if sp, ok := normalpath.StripComponents(nn, uint32(strip)); ok {
-					for o := range seenNorm {
-						if o != sp && (under(o, sp) || under(sp, o)) {
-							if onDisk {
-								skipCase = true
-							}
-						}
-					}
-					seenNorm[sp] = true
-				}
-			}
-		}
-		if skipCase {
-			run.Count("arch:skipped-dir-or-conflict")
-			continue
-		}
-		var dest storage.ReadWriteBucket
-		var tmp string
-		if onDisk {
-			tmp = filepath.Join(tmpRoot, "arch"+strconv.Itoa(i))
-			must(os.MkdirAll(filepath.Join(tmp, "root"), 0o755))
-			must(os.WriteFile(filepath.Join(tmp, "outside.txt"), []byte("OUT1"), 0o644))
-			must(os.WriteFile(filepath.Join(tmp, "sent"), []byte("OUT3"), 0o644))
-			must(os.WriteFile(filepath.Join(tmp, "evil.keep"), []byte("OUT4"), 0o644))
-			d, err := storageos.NewProvider().NewReadWriteBucket(filepath.Join(tmp, "root"))
-			must(err)
-			dest = d
-		} else {
-			dest = storagemem.NewReadWriteBucket()
-		}
-		before := ""
-		if onDisk {
-			before = listOutside(tmp)
-		}
-		var err error
-		if useZip {
-			err = storagearchive.Unzip(ctx, bytes.NewReader(buf.Bytes()), int64(buf.Len()), dest, storagearchive.UnzipWithStripComponentCount(uint32(strip)))
-		} else {
-			err = storagearchive.Untar(ctx, bytes.NewReader(buf.Bytes()), dest, storagearchive.UntarWithStripComponentCount(uint32(strip)))
-		}
-		res := bk.ErrClass(err)
-		if res == "err:other" && err != nil && strings.Contains(err.Error(), "empty archive file name") {
-			res = "err:other"
-		}
-		final, werr := bk.WalkAll(ctx, dest, "")
-		must(werr)
-		names := make([]string, len(ents))
-		for j, e := range ents {
-			names[j] = e.name
-		}
-		if onDisk {
-			if now := listOutside(tmp); now != before {
-				run.Fail(hx.OracleFailure{Class: "archive-escape", What: fmt.Sprintf("extracting entries %q wrote outside the destination: before %q after %q", names, before, now),
-					Input: map[string]any{"zip": useZip, "strip": strip, "entries": names}, Replay: fmt.Sprintf("build/c13 --seed %d --tier %s", run.Seed, run.Tier)})
-			}
-			os.RemoveAll(tmp)
-		}
-		for _, e := range ents {
-			cl := normalpath.Normalize(e.name)
-			if (cl == ".." || strings.HasPrefix(cl, "../") || strings.HasPrefix(cl, "/")) && err == nil {
-				base := e.name[strings.LastIndex(e.name, "/")+1:]
-				if !strings.HasPrefix(base, "._") {
-					run.Fail(hx.OracleFailure{Class: "archive-escape-accepted", What: fmt.Sprintf("archive with escaping entry %q was extracted without error", e.name),
-						Input: map[string]any{"zip": useZip, "strip": strip, "entries": names}, Replay: fmt.Sprintf("build/c13 --seed %d --tier %s", run.Seed, run.Tier)})
-				}
-			}
-		}
-		enc := "-"
-		if len(modelEnts) > 0 {
-			enc = strings.Join(modelEnts, ",")
-		}
-		kind := "tar"
-		if useZip {
-			kind = "zip"
-		}
-		run.Count("arch:" + kind + ":" + res)
-		run.Case("untar\t"+strconv.Itoa(strip)+"\t"+enc, res+"|"+bk.Dump(final), len(final) > 0)
-		if i < 2 {
-			run.Sample(map[string]any{"section": "C", "zip": useZip, "strip": strip, "entries": names, "result": res})
-		}
-	}
-}
-
 func must(err error) {
 	if err != nil {
 		panic(err)
@@ -815,14 +661,20 @@ func main() {
 	hr := r.Fork(2)
 	for i := 0; i < nHist; i++ {
 		cr := hr.Fork(uint64(i))
+		if run.Only >= archOnlyBase {
+			break
+		}
 		h := genHistory(cr, i%3 == 2)
 		if run.Only >= 0 && run.Only != i {
 			continue
 		}
 		runHistory(run, i, h, tmpRoot)
 	}
-	if run.Only < 0 {
-		sectionC(run, r.Fork(3), tmpRoot)
+	if run.Only < 0 || (run.Only >= archOnlyBase && run.Only < unicodeOnlyBase) {
+		sectionD(run, r.Fork(4), tmpRoot)
+	}
+	if run.Only < 0 || run.Only >= unicodeOnlyBase {
+		sectionE(run, tmpRoot)
 	}
 	run.Finish()
 }
